@@ -252,6 +252,15 @@ func (sc *SpecCtx) eval(x *Sx) specVal {
 			sub = sub.withBound(b.List[0].Atom, b.List[0].Atom)
 		}
 		return specVal{fmt.Sprintf("(let (%s) %s)", strings.Join(bs, " "), sub.expand(args[1])), nil}
+	case "cast":
+		// (cast e pkg.Type): e is a reference to a value of the named struct type
+		v := sc.eval(args[0])
+		typ := t.P.typeByName(args[1].Atom)
+		if typ == nil {
+			t.errorf("spec: unknown type %s in cast", args[1].Atom)
+			return v
+		}
+		return specVal{v.term, types.NewPointer(typ)}
 	case "reveal":
 		return specVal{revealInstance(sc, args[0]), nil}
 	case "_", "as":
